@@ -1,4 +1,4 @@
-import C2paModel.Lemmas.C07A
+import C2paModel.Props.C07
 /-
 C09 — embedding and removing a manifest preserves the media content.
 
@@ -8,7 +8,20 @@ meaning, and every absolute file offset stored in the container still addresses 
 media bytes. Removing the manifest from an asset produced by embedding gives the same bytes
 as removing it from the original.
 
-Layer A, for every container / store / format instance.
+Layer A (`media_preserved`, `media_preserved_ops`, `remove_after_ops_bytes`, … ) is the
+specification algebra: for every container / store / format instance the non-manifest
+segments are untouched by `writeA` / `removeA`. By themselves these constrain no handler.
+
+The statements about the byte-exact PNG handler model are in the section "PNG, byte-exact
+layer B" below: for every file the walker accepts with at most one caBX chunk and every
+sequence of `write_cai` / `remove_cai_store_from_stream` calls with stores shorter than 2³²
+bytes, the lexed container of the result is the layer-A result (`Png.segs_applyOps`), hence
+the header, every non-caBX chunk (type, bytes incl. CRC, order) and the bytes after IEND are
+preserved (`Png.media_preserved_ops`), and removal afterwards yields byte for byte what
+removal from the original yields (`Png.remove_after_ops_bytes`, `Png.remove_write_restores`).
+PNG stores no absolute file offsets, so the offset clause is vacuous for PNG; the
+offset-shift lemmas below are format-independent (the BMFF offset-table model is in
+`Props/C09Bmff.lean`).
 -/
 namespace C2pa.C07
 
@@ -59,6 +72,82 @@ theorem remove_write_restores (F : Fmt) (c : List Seg) (s : Bytes) (h : manifest
       rw [h] at this; cases this
   show ser (strip c) = ser c
   rw [this]
+
+/-! ### PNG, byte-exact layer B -/
+
+namespace Png
+
+/-- A sequence of handler calls on bytes; `none` as soon as one call fails. -/
+def applyOps : Bytes → List EOp → Option Bytes
+  | b, [] => some b
+  | b, .w s :: rest => (write b s).bind (applyOps · rest)
+  | b, .r :: rest => (remove b).bind (applyOps · rest)
+
+/-- Every store written is shorter than 2³² bytes. -/
+def Small (ops : List EOp) : Prop := ∀ s, EOp.w s ∈ ops → s.length < 4294967296
+
+/-- **Commuting square for operation sequences.** -/
+theorem segs_applyOps : ∀ (ops : List EOp) {b o : Bytes} {c : List Seg}, segs b = some c →
+    (manifests c).length ≤ 1 → Small ops → applyOps b ops = some o →
+    segs o = some (C07.applyOps fmt c ops) ∧ (manifests (C07.applyOps fmt c ops)).length ≤ 1
+  | [], b, o, c, h, h1, _, ha => by
+    injection ha with ha; subst ha; exact ⟨h, h1⟩
+  | .w s :: rest, b, o, c, h, h1, hs, ha => by
+    have hss : s.length < 4294967296 := hs s List.mem_cons_self
+    cases hw : write b s with
+    | none => simp [applyOps, hw] at ha
+    | some o₁ =>
+      have ha' : applyOps o₁ rest = some o := by simpa [applyOps, hw] using ha
+      have hso := segs_write h h1 hss hw
+      have hone : (manifests (writeA fmt c s)).length ≤ 1 := by
+        rw [write_exactly_one]; exact Nat.le_refl 1
+      exact segs_applyOps rest hso hone (fun t ht => hs t (List.mem_cons_of_mem _ ht)) ha'
+  | .r :: rest, b, o, c, h, h1, hs, ha => by
+    obtain ⟨o₁, hr, hso⟩ := segs_remove h h1
+    have ha' : applyOps o₁ rest = some o := by simpa [applyOps, hr] using ha
+    have hzero : (manifests (removeA c)).length ≤ 1 := by
+      rw [(remove_clean fmt c).1]; exact Nat.zero_le 1
+    exact segs_applyOps rest hso hzero (fun t ht => hs t (List.mem_cons_of_mem _ ht)) ha'
+
+/-- **Media preserved on bytes**: after any sequence of embeddings / removals the header, the
+non-caBX chunks (type, raw bytes, order) and the trailing bytes are those of the input. -/
+theorem media_preserved_ops {ops : List EOp} {b o : Bytes} {c : List Seg} (h : segs b = some c)
+    (h1 : (manifests c).length ≤ 1) (hs : Small ops) (ha : applyOps b ops = some o) :
+    ∃ c', segs o = some c' ∧ strip c' = strip c :=
+  ⟨_, (segs_applyOps ops h h1 hs ha).1, C07.media_preserved_ops fmt c ops⟩
+
+/-- **remove after any sequence = remove from the original**, byte for byte. -/
+theorem remove_after_ops_bytes {ops : List EOp} {b o : Bytes} {c : List Seg} (h : segs b = some c)
+    (h1 : (manifests c).length ≤ 1) (hs : Small ops) (ha : applyOps b ops = some o) :
+    remove o = remove b := by
+  obtain ⟨hso, hone⟩ := segs_applyOps ops h h1 hs ha
+  rw [remove_refines hso hone, remove_refines h h1, C07.remove_after_ops_bytes]
+
+/-- For an asset without manifest, remove ∘ write restores the original file. -/
+theorem remove_write_restores {b s o : Bytes} {c : List Seg} (h : segs b = some c)
+    (h0 : manifests c = []) (hs : s.length < 4294967296) (hw : write b s = some o) :
+    remove o = some b := by
+  have h1 : (manifests c).length ≤ 1 := by rw [h0]; exact Nat.zero_le 1
+  have hso := segs_write h h1 hs hw
+  have hone : (manifests (writeA fmt c s)).length ≤ 1 := by
+    rw [write_exactly_one]; exact Nat.le_refl 1
+  rw [remove_refines hso hone, C07.remove_write_restores fmt c s h0, ser_segs h]
+
+/-- The written file differs from the stripped input only by the inserted caBX chunk: it is
+`pre ++ wrap s ++ post` with `pre ++ post` the file without its manifest. -/
+theorem write_inserts {b s o : Bytes} {c : List Seg} (h : segs b = some c)
+    (h1 : (manifests c).length ≤ 1) (hs : s.length < 4294967296) (hw : write b s = some o) :
+    ∃ pre post, o = pre ++ wrap s ++ post ∧ remove b = some (pre ++ post) ∧
+      pre.length = caiOff fmt c := by
+  refine ⟨ser ((strip c).take (insIdx fmt c)), ser ((strip c).drop (insIdx fmt c)), ?_, ?_, rfl⟩
+  · rw [write_refines h h1 hs hw, ser_writeA]; rfl
+  · rw [remove_refines h h1, ser_strip_split]; rfl
+
+end Png
+
+/-- Sidecar: the file has no media; `remove` empties it whatever was written. -/
+theorem sidecar_remove_after_write (a s : Bytes) :
+    (Sidecar.write a s).bind Sidecar.remove = Sidecar.remove a := rfl
 
 /-- **offset_shift_sound** (the fix-up as coded after the repair of `adjust_known_offsets`:
 offsets below the end of the replaced region stay, the others move by the size difference).
@@ -111,6 +200,11 @@ theorem shift_everything_unsound :
   ⟨[1, 2, 3], [], [9], [4], 0, 1, by decide, by decide⟩
 
 /-! ### non-vacuity -/
+
+set_option maxRecDepth 16384 in
+example : Png.applyOps exPng [.w [1, 2, 3], .w [4], .r, .w [5, 6]] =
+    Png.applyOps exPng [.w [5, 6]] := by decide
+example : (Png.applyOps exPng [.w [1, 2, 3], .r]) = some exPng := by decide
 
 example : slice ([1, 2] ++ [9, 9, 9] ++ [3, 4]) (adjOff 2 1 3 3) 2 = slice ([1, 2] ++ [8] ++ [3, 4]) 3 2 := by
   decide
